@@ -197,6 +197,7 @@ def real_endpoint_scenarios(res, sig):
                         note("policy-state", d, "enableBLOB %r for %r from %s: recorded policy %r" % (msg.value, addr, origin, pol), rep)
     wire_scenarios(res, note)
     closing_connection_scenarios(res, note)
+    fault_history_scenarios(res, note)
 
 
 def wire_scenarios(res, note):
@@ -299,6 +300,68 @@ def closing_connection_scenarios(res, note):
             finally:
                 loop.teardown()
                 del ServerH.connections[:]
+
+
+def fault_history_scenarios(res, note):
+    """histories with FAULTS: an endpoint whose handler raises (the exception escapes to the caller of the router, as it
+    does for a failing device) k times in a row, k = 1..12, and afterwards an ordinary client message: it is still handed
+    to every accepting device exactly once, whatever the router remembers about the failures"""
+    import indi.message as M
+    from indi.message import one_parts
+    from indi.routing import Client, Device, Router
+
+    for k in (1, 2, 5, 9, 10, 11, 12):
+        for faulty in ("device", "client"):
+            router = Router()
+            got = []
+
+            class Good(Device):
+                def accepts(self, device):
+                    return device in (None, "A")
+
+                def message_from_client(self, message):
+                    got.append(type(message).__name__)
+
+            class BadDev(Device):
+                def accepts(self, device):
+                    return device == "BAD"
+
+                def message_from_client(self, message):
+                    raise RuntimeError("device failure")
+
+            class BadClient(Client):
+                def message_from_device(self, message):
+                    raise RuntimeError("client failure")
+
+            class Sender(Client):
+                def message_from_device(self, message):
+                    pass
+
+            router.register_device(Good())
+            router.register_device(BadDev())
+            snd = Sender()
+            router.register_client(snd)
+            if faulty == "client":
+                router.register_client(BadClient())
+            escaped = 0
+            for _ in range(k):
+                try:
+                    if faulty == "device":
+                        router.process_message(M.GetProperties(version="1.7", device="BAD"), sender=snd)
+                    else:
+                        router.process_message(M.GetProperties(version="1.7", device="NOBODY"), sender=snd)  # relayed to the failing client
+                except RuntimeError:
+                    escaped += 1
+            del got[:]
+            exc = None
+            try:
+                router.process_message(M.NewTextVector(device="A", name="T", children=[one_parts.OneText(name="a", value="x")]), sender=snd)
+            except Exception as e:  # noqa
+                exc = e
+            res["transitions"] += k + 1
+            res["sends"] += k + 1
+            if exc is not None or got != ["NewTextVector"]:
+                note("device-delivery", "after-%s-faults" % faulty, "after %d failing deliveries (%d escaped): device A got %r (%r)" % (k, escaped, got, exc), {"kind": "real-endpoints"})
 
 
 def check(model, ev, got, exc, exp):
